@@ -199,6 +199,13 @@ def run_C04(tier, seed):
             return [unsched + ongoing, unsched]
         return None
 
+    # non-flexible instances for the direct / observer-based most-work-remaining comparison (the scorer reads
+    # per-job features of DurationObserver and IsReadyObserver); they also go through everything else
+    n_classic = 30 if tier == "quick" else 200
+    for _ in range(n_classic):
+        insts.append(random_instance(rng, 4, 4, 3, durations=(1, 2, 3, 5, 8), flexible=False))
+    res.bound["instances"] += "; plus %d non-flexible instances of the same size with positive durations" % n_classic
+
     for jobs in insts:
         positive = all(dur > 0 for job in jobs for _, dur in job)
         for rule in rules:
@@ -282,10 +289,15 @@ def run_C04(tier, seed):
                 res.breach("tie-breaker-returns-an-operation", f"{combo}: {type(e).__name__}: {str(e)[:100]}",
                            jobs=jobs, history=model.history, scorers=combo)
         # direct vs observer-based most-work-remaining
-        if all(len(ms) == 1 for job in jobs for ms, _ in job):
+        for fc in ([None, ["dominated_operations", "non_idle_machines"], "non_immediate_operations",
+                    "non_immediate_machines"] if positive else [None]):
+            if not all(len(ms) == 1 for job in jobs for ms, _ in job):
+                break
             res.count("observer-based-mwkr-equals-direct")
             inst = build_instance(jobs)
-            d = Dispatcher(inst)
+            # (under a filter a job can be hidden in one state and available again later)
+            d = Dispatcher(inst, ready_operations_filter=DispatchingRuleSolver("most_work_remaining", "first", fc)
+                           .ready_operations_filter)
             model = Model(jobs)
             obs_rule = score_based_rule(MostWorkRemainingScorer())
             try:
@@ -293,14 +305,15 @@ def run_C04(tier, seed):
                     a, b = most_work_remaining_rule(d), obs_rule(d)
                     if a is not b:
                         res.breach("observer-based-mwkr-equals-direct", f"direct selects job {a.job_id}, observer-based "
-                                   f"job {b.job_id}", jobs=jobs, history=model.history)
+                                   f"job {b.job_id}", jobs=jobs, history=model.history, filter=fc)
                         break
-                    sel = rng.choice(list(d.available_operations()))
+                    # mostly follow the rule (as a solver does), sometimes leave its path
+                    sel = b if rng.random() < 0.7 else rng.choice(list(d.available_operations()))
                     d.dispatch(sel, sel.machines[0])
                     model.apply(sel.job_id, sel.machines[0])
             except Exception as e:  # noqa: BLE001
                 res.breach("observer-based-mwkr-equals-direct", f"{type(e).__name__}: {str(e)[:100]}", jobs=jobs,
-                           history=model.history)
+                           history=model.history, filter=fc)
         # metadata of __call__
         res.count("call-records-elapsed-time-and-class-name")
         sched = DispatchingRuleSolver()(build_instance(jobs))
@@ -662,6 +675,13 @@ def run_C19(tier, seed):
         if len(insts) != 8 or len(g) != 8:
             res.breach("iteration-yields-configured-number", f"{len(insts)} instances", config=cfg, seed=sd)
         names = [i.name for i in insts] + [g.generate().name for _ in range(2)]
+        # ... also across a second pass over the same generator (a new epoch) and generate() calls after it
+        second = list(g)
+        res.count("iteration-yields-configured-number")
+        if len(second) != 8:
+            res.breach("iteration-yields-configured-number", f"second pass yields {len(second)} instances", config=cfg,
+                       seed=sd)
+        names += [i.name for i in second] + [g.generate().name]
         if len(set(names)) != len(names):
             res.breach("names-never-reused", str(names), config=cfg, seed=sd)
         for inst in insts:
